@@ -165,7 +165,27 @@ def m4(rep, w):
                     okb = zero[0] if zero else None
                     break
                 b = t.get('to')
-            ok = ok and okb is not None and all(okb in dom.get(rg, ()) for rg in reg)
+            this = okb is not None and all(okb in dom.get(rg, ()) for rg in reg)
+            if not this:
+                # the call sits in a helper spliced into this function: its failure leaves the helper as an Err that the caller's own match
+                # sorts out - any switch on a value that derives from this call's result whose Ok / Continue arm dominates the registration
+                org_ = origins(f)
+                for sb in f.normal_blocks():
+                    tt = f.blocks[sb]['t']
+                    if tt['t'] != 'switch':
+                        continue
+                    dp = op_place(tt['d'])
+                    src = None
+                    for s_ in f.blocks[sb]['s']:
+                        if dp is not None and (s_.get('d') or {}).get('l') == dp['l'] and s_.get('r', {}).get('rv') == 'discr':
+                            src = s_['r']['p']
+                    if src is None:
+                        continue
+                    if any(q[0][0] == 'call' and q[0][1] == cb for q in org_.get(src['l'], ())):
+                        zero = [x for v, x in tt['cases'] if v == 0]
+                        if zero and all(zero[0] in dom.get(rg, ()) for rg in reg):
+                            this = True
+            ok = ok and this
         r.check(ok, 'registration is dominated by the Ok arm of %s' % what, 'the module is registered before %s has succeeded: when it fails the registry keeps an entry that '
                 'was never loaded, and every later import of that path reports a circular dependency' % what, f.loc())
 
@@ -326,6 +346,16 @@ def m3(rep, w):
             if rr.get('rv') == 'agg' and rr.get('adt') == 'yarel::error::ErrorKind':
                 if bi in hit_region or (first is not None and first in dom.get(bi, ())):
                     fail_kinds.append(rr['v'])
+    # ... and in the closures built on those paths (`.map_err(|e| Error::with_message(ErrorKind::ImportError, ..))`)
+    for bi, b in enumerate(f.blocks):
+        for s in b['s']:
+            rr = s.get('r', {})
+            if rr.get('rv') == 'agg' and rr.get('closure') and rr['closure'] in w.fns and (bi in hit_region or (first is not None and first in dom.get(bi, ()))):
+                for b2 in w.fns[rr['closure']].blocks:
+                    for s2 in b2['s']:
+                        r2 = s2.get('r', {})
+                        if r2.get('rv') == 'agg' and r2.get('adt') == 'yarel::error::ErrorKind':
+                            fail_kinds.append(r2['v'])
     r.check(len(fail_kinds) >= 2 and set(fail_kinds) == {'ImportError'}, 'errors built for a cyclic import or a module that does not compile are ImportError (%d sites)' % len(fail_kinds),
             'start_import_impl reports an import failure as %s' % sorted(set(fail_kinds)), f.loc())
     the = [bi for bi, t in f.calls() if callee_name(t) == VM + 'try_handle_error']
